@@ -373,6 +373,19 @@ def oracle_entrypoints(f1, f2, opts, spec):
     return None
 
 
+def doctype_key(f1, f2, w):
+    """finding key for the known class: a document with a DOCTYPE, the xml formatter, and the disagreement being the
+    DOCTYPE that diff_files (ElementTree in hand) prints and the text / bytes / root-element entry points do not"""
+    try:
+        has = any("<!DOCTYPE" in open(f, encoding="utf8", errors="replace").read() for f in (f1, f2))
+    except Exception:  # noqa
+        has = False
+    if has and w and "differs from diff_files on names" in w and "<!DOCTYPE" in w.split(" vs ", 1)[-1] \
+            and "<!DOCTYPE" not in w.split(" vs ", 1)[0]:
+        return "doctype-printed-for-files-only"
+    return None
+
+
 ENCODINGS = ["utf-8", "utf-16", "utf-16-be", "utf-16-le", "utf-32-be", "iso-8859-1"]
 
 
@@ -779,7 +792,8 @@ def main(run):
                 w = oracle_entrypoints(c["args"][0], c["args"][1], c["kwargs"]["diff_options"], c["kwargs"]["formatter"])
                 counts["entrypoints"] += 1
                 if w:
-                    viols.append({"what": w, "replay": dict(replay_of(argv), kind="entrypoints")})
+                    viols.append({"what": w, "replay": dict(replay_of(argv), kind="entrypoints",
+                                                            finding_key=doctype_key(c["args"][0], c["args"][1], w))})
         # entry points without formatter / default-constructed formatters
         for (f1, f2) in files[:6 if quick else 40]:
             for spec in (None, {"class": "DiffFormatter", "kwargs": {}}, {"class": "XMLFormatter", "kwargs": {}},
@@ -789,7 +803,17 @@ def main(run):
                     counts["entrypoints"] += 1
                     if w:
                         viols.append({"what": w, "replay": {"kind": "entrypoints-api", "left": open(f1).read(), "right": open(f2).read(),
-                                                            "opts": opts, "spec": spec}})
+                                                            "opts": opts, "spec": spec, "finding_key": doctype_key(f1, f2, w)}})
+        # the documents with an internal DTD subset through every entry point and every default-constructed formatter
+        # (open finding doctype-printed-for-files-only lives here: exercised on every run)
+        for (f1, f2) in [fs for fs in files if "<!DOCTYPE" in open(fs[0]).read()][:2]:
+            for spec in (None, {"class": "DiffFormatter", "kwargs": {}}, {"class": "XMLFormatter", "kwargs": {}},
+                         {"class": "XmlDiffFormatter", "kwargs": {"normalize": 0}}):
+                w = oracle_entrypoints(f1, f2, {}, spec)
+                counts["entrypoints"] += 1
+                if w:
+                    viols.append({"what": w, "replay": {"kind": "entrypoints-api", "left": open(f1).read(), "right": open(f2).read(),
+                                                        "opts": {}, "spec": spec, "finding_key": doctype_key(f1, f2, w)}})
 
         # -- encodings ----------------------------------------------------------------------
         for (f1, f2) in files[:8 if quick else 60]:
